@@ -357,10 +357,71 @@ def dgReadSub (g : G) (labels : Option (List Int)) (nodes : List Nat) : String :
     "n=" ++ toString h.n ++ " adj=" ++ showMat toString (h.succ.map fun row => row.mergeSort (fun a b => decide (a ≤ b)))
       ++ " " ++ reportDG h lab'
 
+/-! ### argument validation of the constructors and of the label setters -/
+
+/-- what the setters look at in a labels argument after `np.asarray`: number of dimensions,
+    length of the first axis (0 when 0-dimensional), and whether the dtype is `object` -/
+structure LabelArg where
+  ndim : Nat
+  len0 : Nat
+  isObject : Bool
+deriving Repr, DecidableEq
+
+inductive InitErr where
+  | notSquare        -- 'input matrix must be square' / 'P must be a square matrix'
+  | negative         -- 'P must be nonnegative'
+  | rowSums          -- 'The rows of P must sum to 1'
+  | labelsLength     -- '… must be an array_like of length n'
+  | labelsObject     -- 'data in … must be homogeneous in type'
+deriving Repr, DecidableEq
+
+def InitErr.code : InitErr → String
+  | .notSquare => "not-square"
+  | .negative => "negative"
+  | .rowSums => "row-sums"
+  | .labelsLength => "labels-length"
+  | .labelsObject => "labels-object"
+
+/-- `node_labels` / `state_values` setter: `None` passes; otherwise the length test comes first,
+    then the dtype test -/
+def checkLabels (n : Nat) : Option LabelArg → Option InitErr
+  | none => none
+  | some a =>
+    if a.ndim < 1 ∨ a.len0 ≠ n then some .labelsLength
+    else if a.isObject then some .labelsObject
+    else none
+
+/-- shape of `sparse.csr_matrix(np.asarray(adj_matrix))` for an array of the given shape
+    (1-dimensional input becomes one row) -/
+def csrShape : List Nat → Option (Nat × Nat)
+  | [k] => some (1, k)
+  | [m, k] => some (m, k)
+  | _ => none
+
+/-- `DiGraph.__init__`: square test, then the label setter.  `none` = constructed -/
+def dgInit (rows cols : Nat) (lab : Option LabelArg) : Option InitErr :=
+  if cols ≠ rows then some .notSquare else checkLabels cols lab
+
+/-- `np.allclose(row_sums, 1)`: `|s - 1| ≤ atol + rtol·|1|` with the default `atol = 1e-8`, `rtol = 1e-5` -/
+def closeToOne (s : Rat) : Bool :=
+  let d := s - 1
+  decide ((if d < 0 then -d else d) ≤ (10001 : Rat) / 1000000000)
+
+/-- `MarkovChain.__init__`: square test, non-negativity, row sums, then the `state_values` setter -/
+def mcInit (shape : List Nat) (P : List (List Rat)) (vals : Option LabelArg) : Option InitErr :=
+  match shape with
+  | [m, k] =>
+    if m ≠ k then some .notSquare
+    else if P.any (fun row => row.any fun x => decide (x < 0)) then some .negative
+    else if P.any (fun row => !closeToOne (row.foldl (· + ·) 0)) then some .rowSums
+    else checkLabels m vals
+  | _ => some .notSquare
+
 inductive Step where
   | setLabels (L : Option (List Int))     -- `g.node_labels = L` / `mc.state_values = L`
   | read (what : String)
   | readSub (nodes : List Nat)
+  | badSet (a : LabelArg)                  -- an assignment the setter may reject (shape / dtype summary)
 deriving Repr
 
 /-- the state of a `DiGraph` object: the (immutable) graph and the current labels -/
@@ -372,6 +433,11 @@ def dgStep (s : DGState) : Step → DGState × Option String
   | .setLabels L => ({ s with labels := L }, none)
   | .read w => (s, some (dgRead s.g s.labels w))
   | .readSub nodes => (s, some (dgReadSub s.g s.labels nodes))
+  | .badSet a =>
+    -- the setter raises before it stores anything: the object is unchanged
+    (s, some (match checkLabels s.g.n (some a) with
+      | some e => "ERR:ValueError:" ++ e.code
+      | none => "bad-read"))
 
 /-- outputs of the reads of a history, in order -/
 def dgRun (s : DGState) : List Step → List String
@@ -437,6 +503,10 @@ def mcStep (s : MCState) : Step → MCState × Option String
       | none => s.values
     ({ s with digraph := some dl }, some (mcRead s.g dl w))
   | .readSub _ => (s, some "bad-read")
+  | .badSet a =>
+    (s, some (match checkLabels s.g.n (some a) with
+      | some e => "ERR:ValueError:" ++ e.code
+      | none => "bad-read"))
 
 def mcRun (s : MCState) : List Step → List String
   | [] => []
@@ -453,6 +523,9 @@ def parseStep (n : Nat) (tok : String) : Option Step :=
     | none => none
   | ["R", w] => some (.read w)
   | ["S", v] => (parseList? parseNat? v).map .readSub
+  | ["B", v] => match parseList? parseNat? v with
+    | some [nd, l0, ob] => some (.badSet ⟨nd, l0, ob != 0⟩)
+    | _ => none
   | _ => none
 
 def parseSteps (n : Nat) (s : String) : Option (List Step) :=
@@ -482,6 +555,28 @@ def handle (toks : List String) : String :=
             | none => "?"
         "n=" ++ toString h.n ++ " adj=" ++ showMat toString (h.succ.map fun row => row.mergeSort (fun a b => decide (a ≤ b)))
           ++ " " ++ reportDG h lab'
+    | _, _, _ => "bad-op"
+  | "init" :: r =>
+    -- constructor validation: `kind=dg shape=…` / `kind=mc shape=… P=…`, `lab=none | ndim,len0,isObject`
+    let lab? : Option (Option LabelArg) := match kv r "lab" with
+      | some "none" => some none
+      | some v => match parseList? parseNat? v with
+        | some [nd, l0, ob] => some (some ⟨nd, l0, ob != 0⟩)
+        | _ => none
+      | none => none
+    match kv r "kind", kvNats r "shape", lab? with
+    | some "dg", some shape, some lab =>
+      match csrShape shape with
+      | some (m, k) => match dgInit m k lab with
+        | none => "ok n=" ++ toString k
+        | some e => "ERR:ValueError:" ++ e.code
+      | none => "bad-op"
+    | some "mc", some shape, some lab =>
+      match kvRatMat r "P" with
+      | some P => match mcInit shape P lab with
+        | none => "ok n=" ++ toString (shape.headD 0)
+        | some e => "ERR:ValueError:" ++ e.code
+      | none => "bad-op"
     | _, _, _ => "bad-op"
   | "hist" :: r =>
     -- a history on one object: `kind=dg|mc`, initial `labels=` (optional), `steps=tok|tok|…`
